@@ -19,7 +19,7 @@ THEOREMS = ['C10_rule_scan_exact', 'C10_rule_scan_none', 'C10_lex_maximal_munch'
             'C10_front_rejects_non_sentences', 'C10_front_spec', 'C10_front_none_spec', 'C10_canonical_tree_exists', 'C10_parse_canonical_exact', 'C10_canonical_unique',
             'C10_term_fuel_monotone', 'C10_compile_whole_program', 'C10_front_compile_whole',
             'C10_compile_front_rejects_non_sentences', 'C10_compile_front_whole',
-            'C10_quoted_atom_opaque', 'C10_quoted_body_irrelevant']
+            'C10_quoted_atom_opaque', 'C10_quoted_body_irrelevant', 'C10_cli_sources_are_sentences', 'C10_cli_non_sentence_fails']
 RULE = ('source texts: (a) sentences derived at random from the grammar prolog.g4 itself (every alternative, including '
         '=(a,b), unary operators, name/arity, numeral-named compounds, foo(), [a,|T], nested parentheses, directives), '
         '(b) programs printed from random ASTs, both rendered with random spacing, line breaks and % comments, and (c) every '
@@ -41,6 +41,8 @@ RULE = ('source texts: (a) sentences derived at random from the grammar prolog.g
 TRUSTED_BASE = [
     'Coq 8.16.1 kernel (coqc); vm_compute for the in-Coq evaluation of the model on every case',
     'no axioms: all C10 theorems are closed under the global context',
+    'hand-written model Cli/Cli.v of the command line main() (shared with C19) for the two theorems about source sequences; the real '
+    'command line is observed on sequences of sources (each text alone vs. the run) by this check',
     'hand-written model Lang/Lexer.v, Parser.v, Unquote.v of the ANTLR-generated lexer/parser (prolog.g4) and of yp_prolog_visitor.py; '
     'tied to /repo by this differential run (token streams, accept/reject, ASTs), not by translation',
     'the ANTLR 4.9.1 runtime is modelled (maximal munch, rule order, precedence climbing, lowest viable alternative), not verified',
@@ -499,7 +501,7 @@ def g_large(rng, style, target):
             if c is None:
                 continue
         t = render(c, rng, rng.choice([0, 0, 1])) + rng.choice(_CLAUSE_ENDS)
-        clauses.append(c); parts.append(t); size += len(' '.join(c)) + 1      # the single-blank rendering is at least `target` long
+        clauses.append(c); parts.append(t); size += min(len(t), len(' '.join(c)) + 1)      # this text and its single-blank rendering are at least `target` long
     head = rng.choice(['', '', '% generated table\n', '\n'])
     return head + ''.join(parts), clauses
 
@@ -641,7 +643,15 @@ def builtin_corpus():
         "p('a\r\n% b\r\n').", "p('a\n% b\n', 'c').\n% d\nq.", "p('a\n:- b.\n').", "p('a\n').\n%').\n", "p('a\n% \\' b').", "p('a\n% \\').  q('b').",
         "p('a \n').", "p('a\t\n b').", "% 'a\np('b\n% c').", "% it's\np. % 'x\nq('\n% y').",
     ]
-    return [{'src': s, 'kind': 'corpus', 'base_clauses': 1} for s in srcs]
+    L = [{'src': s, 'kind': 'corpus', 'base_clauses': 1} for s in srcs]
+    # source sequences: every open end, followed by the text that would complete it (bare, and between other clauses)
+    from props.cli_gen import OPEN_ENDS
+    for i, (a, b) in enumerate(OPEN_ENDS):
+        files = [a, b] if i % 2 else ['k(0).\n' + a, b + 'z(9).\n']
+        L.append({'kind': 'multi', 'how': 'open-end', 'files': files, 'src': ''.join(files), 'base_clauses': 2})
+    L.append({'kind': 'multi', 'how': 'mixed', 'files': ['p(a).\n', '', 'q(b).'], 'src': 'p(a).\nq(b).', 'base_clauses': 2})
+    L.append({'kind': 'multi', 'how': 'mixed', 'files': ['p(a).\n', 'q(b)', 'r(c).\n'], 'src': 'p(a).\nq(b)r(c).\n', 'base_clauses': 3})
+    return L
 
 def model_expr(case):
     # token stream and front end (Lang/Front.v); verdict and emitted text of the whole pipeline (Comp/RunCompile.v: compile_text =
